@@ -8,15 +8,12 @@ NOTE = ("Trusted: Lean 4.33 kernel (axioms of every property theorem audited to 
         "harness/vhdl_sim.py (no VHDL simulator installed), the correspondence harness; the Lean model mirrors the Python code "
         "by hand and is tied to /repo only on the inputs the correspondence explores.")
 
-# id -> (implemented, technique, level text, design_ref)
-CHECKS = {
- "C01": (True, "Lean 4 proof of a certificate checker (C01.validate_sound: closed = true implies trace equality for all inputs, lengths and interpretations) evaluated on the real IR of every generated coroutine design (translation validation with a proved validator) + end-to-end differential of the emitted VHDL against the Lean reference semantics",
-         "Per accepted generated design the Lean-verified checker is run on (source body, real state machine from std.VhdlCompiler.to_ir): a pass is a theorem for all input sequences of that design. Reference semantics (Coro.run) formalises the timing rules of the property; end-to-end VHDL simulation ties the back end and the IR export.",
-         "DESIGN.md §5 C01"),
- "C14": (True, "Lean 4 refinement proof (ring buffer -> abstract queue, all N, all legal op sequences) + differential correspondence of the Lean step functions against the compiled std.Fifo/std.Stack designs executed by the VHDL-subset interpreter",
-         "Theorems C14.fifo_refines_queue / fifo_flags_exact / fifo_pop_returns_oldest hold for every capacity N>=2 and every legal sequence; the tie compares the executable model with the emitted VHDL of real wrappers clock by clock (random + exhaustive short sequences, both stack modes).",
-         "DESIGN.md §5 C14"),
-}
+# per-property metadata of the claimed checks lives in manifest.d/Cxx.json {"technique","text","design_ref"}
+CHECKS = {}
+for fn in sorted(os.listdir(os.path.join(HERE, "manifest.d"))):
+    if fn.endswith(".json"):
+        d = json.load(open(os.path.join(HERE, "manifest.d", fn)))
+        CHECKS[fn[:-5]] = (True, d["technique"], d["text"], d["design_ref"])
 ALL = [f"C{i:02d}" for i in range(1, 21)]
 
 def main():
